@@ -291,9 +291,46 @@ def gen_psr_walk(rng):
             v = (v & ~0x1F) | rng.choice(allmodes + [0x16, 0x1a, 0x00, 0x14, 0x1e])
         ops.append({'op': k, 'v': v, 'mask': rng.getrandbits(4), 'rn': rng.randrange(13), 'imm12': rng.getrandbits(12), 'imod': rng.randrange(4), 'aif': rng.getrandbits(3),
                     'mode': rng.choice([None] + allmodes + [0x16, 0x1a, 0x05]), 'e': rng.getrandbits(1), 't1': rng.getrandbits(1), 'setmode': rng.choice(modes),
-                    'bits': rng.getrandbits(8)})
+                    'bits': rng.getrandbits(8), 'dp': rng.getrandbits(16)})
     core = {'config': cfg, 'devices': devices, 'regs': regs, 'words': [], 'force': None, 'no_poke': []}
     return {'scenario': 'psr_walk', 'cores': [core], 'ops': ops, 'thumb': thumb, 'events': [], 'max_ticks': 10 ** 9, 'stop_at_done': False}
+
+
+def dp_return(dp, lr, cin, pcv):
+    """ARM data-processing exception return '<op>S pc, Rn, <operand2>' whose result is 'lr': -> (word, {register: value to load first}, result).
+    Rn is any register (the PC reads as instruction + 8, so with Rn = pc the result follows from the instruction's own address)"""
+    M32 = 0xFFFFFFFF
+    opn = ['sub', 'add', 'rsb', 'adc', 'sbc', 'rsc', 'orr', 'eor', 'bic', 'and', 'mov', 'mvn'][(dp >> 1) % 12]
+    rn = (dp >> 5) & 15
+    i8 = 4 * ((dp >> 9) & 0x3F)
+    regform = bool((dp >> 15) & 1) or opn in ('and', 'mov', 'mvn')
+    if rn == 15 and opn not in ('sub', 'add'):
+        rn = 14
+    if opn == 'orr':
+        op2 = 0
+    elif opn == 'bic':
+        op2 = i8 >> 2 & 3
+    elif opn == 'and':
+        op2 = lr | 0xF0000003
+    elif opn == 'mov':
+        op2 = lr
+    elif opn == 'mvn':
+        op2 = lr ^ M32
+    else:
+        op2 = i8
+    sets = {}
+    if rn == 15:
+        lr = (pcv - op2) & M32 if opn == 'sub' else (pcv + op2) & M32
+    else:
+        sets[rn] = {'sub': lr + op2, 'add': lr - op2, 'rsb': op2 - lr, 'adc': lr - op2 - cin, 'sbc': lr + op2 + (1 - cin), 'rsc': op2 - lr - (1 - cin),
+                    'orr': lr, 'eor': lr ^ op2, 'bic': lr | op2, 'and': lr, 'mov': 0x5A5A5A58, 'mvn': 0xA5A5A5A4}[opn] & M32
+    if regform:
+        rm = 12 if rn != 12 else 11
+        sets[rm] = op2
+        w = A.dp_reg(opn, 15, 0 if opn in ('mov', 'mvn') else rn, rm, s=1)
+    else:
+        w = A.dp_imm(opn, 15, rn, op2, s=1)
+    return w, sets, lr
 
 
 def run_psr_walk(case):
@@ -427,6 +464,14 @@ def run_psr_walk(case):
                     imm = 4 if op['t1'] else 0
                     if thumb:
                         w = T.subs_pc_lr(imm)
+                    elif op.get('dp', 0) & 1 and cur != 0x1a:
+                        # <op>S pc, Rn, <operand2> with ANY Rn (lr, sp, pc, r0-r12), every data-processing operation, immediate and register
+                        # operand: B9.3.20 'SUBS PC, LR and related instructions'
+                        w, sets, lr = dp_return(op['dp'], lr, (pre_cpsr >> 29) & 1, (pre_regs['PC'] + 8) & 0xFFFFFFFF)
+                        for rx_, vx_ in sets.items():
+                            r.set(rx_, vx_)
+                            named.add(rx_)
+                        imm = 0
                     elif imm == 0 and (op['bits'] >> 4) & 1:
                         # ADDS / ORRS / EORS / BICS pc, lr, #0: the other data-processing forms of the same return
                         w = A.dp_imm(['add', 'orr', 'eor', 'bic'][(op['bits'] >> 5) & 3], 15, 14, 0, s=1)
